@@ -323,9 +323,10 @@ class DictCompV(V):
 
 @dataclass(eq=False)
 class EnumV(V):
-    """enumerate(collection)."""
+    """enumerate(collection) / itertools.groupby(collection) without key: pairs (index, element) / (element, group)."""
 
     src: V
+    grouped: bool = False
 
 
 @dataclass(eq=False)
@@ -486,7 +487,7 @@ class Frame:
 class _Mapped:
     """Loop variable of an iteration over map(fn, ..): the value is fn(element), computed once the element is bound."""
 
-    fn: V
+    fn: "V | str | None"
     inner: "V | _Mapped | None"
 
 
@@ -793,17 +794,50 @@ class Interp:
             if i == len(s.cases):
                 return TRUE
             case = s.cases[i]
-            irrefutable = isinstance(case.pattern, ast.MatchAs) and case.pattern.pattern is None and case.guard is None
-            c = TRUE if irrefutable else self.free(f"CASE[{key(subject)}:{norm(case.pattern, 30)}@{s.lineno}]", t)
+            c = self.match_pattern(fr, subject, case.pattern)
+            if c is None:
+                c = self.free(f"CASE[{key(subject)}:{norm(case.pattern, 30)}@{s.lineno}]", t | {"?"})
+                for n in ast.walk(case.pattern):
+                    nm = getattr(n, "name", None)
+                    if isinstance(nm, str):
+                        fr.env[nm] = Unknown(f"{key(subject)}~{nm}", taint_of(subject))
             if case.guard is not None:
                 c = conj([c, self.bf(fr, case.guard)])
-            for n in ast.walk(case.pattern):
-                nm = getattr(n, "name", None)
-                if isinstance(nm, str):
-                    fr.env[nm] = Unknown(f"{key(subject)}~{nm}", taint_of(subject))
             return self.branch(fr, c, case.body, lambda: chain(i + 1))
 
         return chain(0)
+
+    def match_pattern(self, fr: Frame, v: V, p: ast.pattern) -> "Formula | None":
+        """Condition under which the value matches the pattern (literals, True / False / None, wildcards and captures, fixed-length
+        sequences over a tuple, alternatives); None if the model cannot tell."""
+        if isinstance(p, ast.MatchAs):
+            inner = TRUE if p.pattern is None else self.match_pattern(fr, v, p.pattern)
+            if inner is not None and p.name:
+                fr.env[p.name] = v
+            return inner
+        if isinstance(p, ast.MatchOr):
+            parts = [self.match_pattern(fr, v, q) for q in p.patterns]
+            return None if any(x is None for x in parts) else disj(parts)
+        if isinstance(p, ast.MatchSingleton):
+            if p.value is None:
+                return self.isnone(v)
+            if isinstance(v, (BoolV, Const)) or (isinstance(v, Unknown) and (v.flag or v.patterns)):
+                return self.truth(v) if p.value is True else f_not(self.truth(v))
+            return None
+        if isinstance(p, ast.MatchValue):
+            if isinstance(p.value, ast.Constant):
+                if isinstance(v, Const):
+                    return TRUE if v.value == p.value.value else FALSE
+                if isinstance(p.value.value, bool) and isinstance(v, BoolV):
+                    return v.f if p.value.value else f_not(v.f)
+                return self.free(f"EQ[{key(v)},{p.value.value!r}]", self.value_taint(v))
+            return None
+        if isinstance(p, ast.MatchSequence) and isinstance(v, TupleV) and not any(isinstance(q, ast.MatchStar) for q in p.patterns):
+            if len(p.patterns) != len(v.items):
+                return FALSE
+            parts = [self.match_pattern(fr, x, q) for x, q in zip(v.items, p.patterns)]
+            return None if any(x is None for x in parts) else conj(parts)
+        return None
 
     def branch(self, fr: Frame, c: Formula, body, orelse) -> Formula:
         """Executes `body` under c and `orelse` under not c (statement lists or callables) and merges the bindings."""
@@ -967,7 +1001,7 @@ class Interp:
                 runs.append((_Mapped(src.fn, value), g, lp, ckey))
             return runs
         if isinstance(src, EnumV):
-            return [(_Mapped(None, value), g, lp, ckey) for value, g, lp, ckey in self.iteration_plan(fr, src.src, node)]
+            return [(_Mapped("groupby" if src.grouped else None, value), g, lp, ckey) for value, g, lp, ckey in self.iteration_plan(fr, src.src, node)]
         if isinstance(src, DictCompV):
             gen = src.node.generators[0]
             saved_env = src.fr.env
@@ -1111,6 +1145,8 @@ class Interp:
         """The value bound to the loop variable of one run of `iteration_plan` (conditions on the element: `take_run_conds`)."""
         if isinstance(value, _Mapped):
             inner = self.loop_value(fr, value.inner, lp, node)
+            if value.fn == "groupby":
+                return TupleV([inner, Unknown(f"group@{getattr(node, 'lineno', 0)}", maybe_none=False)])
             if value.fn is None:  # enumerate
                 idx = Unknown(f"index@{getattr(node, 'lineno', 0)}", maybe_none=False)
                 idx._elem = inner  # type: ignore[attr-defined]
@@ -1254,6 +1290,18 @@ class Interp:
             t = frozenset()
             for p in v.parts:
                 for a in atoms_of(p.guard):
+                    t |= self.taint_of_atom(a)
+            return t
+        if isinstance(v, TupleV):
+            t = frozenset()
+            for i in v.items:
+                t |= self.value_taint(i)
+            return t
+        if isinstance(v, AltV):
+            t = frozenset()
+            for g, x in v.alts:
+                t |= self.value_taint(x)
+                for a in atoms_of(g):
                     t |= self.taint_of_atom(a)
             return t
         return taint_of(v)
@@ -1427,8 +1475,11 @@ class Interp:
     def member(self, v: V, c: Coll) -> Formula:
         k = key(v)
         alts = []
+        drawn = self._drawn_from(v) if isinstance(v, Elem) else set()
         for p in c.parts:
-            if p.kind == "base":
+            if p.kind == "base" and p.base in drawn:
+                alts.append(p.guard)  # the element is taken from this very collection
+            elif p.kind == "base":
                 if p.base.startswith("scanned:"):
                     alts.append(conj([p.guard, atom(f"INSCAN[{k}]")]))
                 else:
@@ -1476,6 +1527,23 @@ class Interp:
                     g = self.exists(g, p.sym)
                 alts.append(g)
         return disj(alts)
+
+    @staticmethod
+    def _drawn_from(e: Elem) -> set:
+        """Names of the base collections a loop element is an element of (its loop runs over that base, possibly filtered)."""
+        out: set = set()
+        todo = [e.loop.src]
+        only_bases = True
+        while todo:
+            c = todo.pop()
+            for p in c.parts:
+                if p.kind == "base":
+                    out.add(p.base)
+                elif p.kind == "filter" and p.src is not None:
+                    todo.append(p.src)
+                else:
+                    only_bases = False
+        return out if only_bases and len(out) == 1 else set()
 
     def set_algebra(self, fr: Frame, a: V, b: V, op: ast.AST, node: ast.AST) -> V:
         ca, cb = self.as_coll(a), self.as_coll(b)
@@ -2097,7 +2165,12 @@ class Interp:
             u._len_of = a  # type: ignore[attr-defined]
             return u
         if name == "isinstance" and len(args) == 2:
+            known = self.isinstance_of(args[0], args[1])
+            if known is not None:
+                return Const(known)
             return BoolV(self.free(f"ISINST[{key(args[0])}:{key(args[1])}]", taint_of(args[0])))
+        if name == "id" and len(args) == 1 and isinstance(args[0], (Elem, Importee, Anc)):
+            return args[0]  # the identity of an element stands for the element
         if name == "str" and args:
             a = args[0]
             if isinstance(a, (Importee, Elem, Anc)):
@@ -2120,6 +2193,8 @@ class Interp:
             return MapV(args[0], args[1])
         if name == "enumerate" and args:
             return EnumV(args[0])
+        if name in ("itertools.groupby", "groupby") and len(args) == 1 and not kwargs:
+            return EnumV(args[0], grouped=True)
         if name in ("dict", "collections.defaultdict", "defaultdict", "collections.OrderedDict", "OrderedDict", "collections.Counter", "Counter"):
             return DictV(f"{name}()@{e.lineno}", t | (frozenset({"?"}) if args else frozenset()))
         if name == "map":
@@ -2130,6 +2205,24 @@ class Interp:
         if name.endswith("Exception") or name.endswith("Error"):
             return Opaque(name, t)
         return Unknown(f"{name}({','.join(key(a) for a in args)})", t)
+
+    def isinstance_of(self, v: V, cls: V) -> "bool | None":
+        """isinstance(v, cls) where the model knows the class of the value (objects it built itself, vocabulary objects)."""
+        classes = cls.items if isinstance(cls, TupleV) else [cls]
+        if not all(isinstance(c, ClassRef) for c in classes):
+            return None
+        if isinstance(v, Obj):
+            return any(any(m.fq == c.ci.fq for m in self.repo.mro(v.cls)) for c in classes)
+        if isinstance(v, Opaque):
+            cands = [ci for ci in self.repo.classes.values() if ci.name == v.cls]
+            if len(cands) == 1:
+                return any(any(m.fq == c.ci.fq for m in self.repo.mro(cands[0])) for c in classes)
+            return None
+        if isinstance(v, (Const, NoneV, BoolV, Coll, TupleV, DictV, Fn)):
+            return False
+        if isinstance(v, Unknown) and (v.patterns or v.flag):
+            return False  # a tuple of patterns / a truth value, not an instance of a repository class
+        return None
 
     def builtin_reduce(self, fr: Frame, args: list, e: ast.Call) -> V:
         """reduce(f, xs, init) where f returns its accumulator extended: the initial collection plus what one generic step adds."""
@@ -2300,7 +2393,12 @@ class Interp:
             a, b = (c, self.as_coll(args[0])) if attr != "issuperset" else (self.as_coll(args[0]), c)
             # isdisjoint: no element of one is in the other;  a <= b: no element of a is outside b
             if attr == "isdisjoint":
-                a, b = b, a  # iterate the argument (usually the small, per-element collection)
+                # symmetric: iterate the side that unrolls into the names of the current element (a per-element collection)
+                plan_a = self.iteration_plan(fr, a, e)
+                if any(lp is not None for _v, _g, lp, _k in plan_a):
+                    plan_b = self.iteration_plan(fr, b, e)
+                    if not any(lp is not None for _v, _g, lp, _k in plan_b):
+                        a, b = b, a
             alts = []
             for value, g, lp, ckey in self.iteration_plan(fr, a, e):
                 saved = self.loops
